@@ -8,7 +8,7 @@ A property module (props/cNN.py) defines a subclass of :class:`Prop` called ``PR
 * ``exclude(spec, triggers)`` optional: rewrite a spec so that it does not contain the shape of an
                               open known finding (exclusion by construction); returns (spec, n_redirected)
 
-Everything random is drawn by Hypothesis, seeded with ``VERIF_SEED*1000+shard``.
+Everything random is drawn by Hypothesis, seeded with ``VERIF_SEED*100000 + 100*round + shard`` (rounds of <=1000 examples).
 Exit codes: 0 held, 1 VIOLATION, 2 harness error / inconclusive.
 """
 import hashlib
@@ -207,21 +207,10 @@ def structural_shrink(prop, spec, clause, cap_s=30):
     return best
 
 
-def _run_shard(args):
-    modname, tier, seed, shard, n_examples, triggers = args
-    sys.setrecursionlimit(10000)
-    import importlib
-
+def _one_round(prop, tier, hseed, n_examples, triggers, acc, holder, phases, shrink_cap):
     import hypothesis
-    from hypothesis import HealthCheck, Phase, given, settings
+    from hypothesis import HealthCheck, given, settings
 
-    mod = importlib.import_module(modname)
-    prop = mod.PROP
-    prop.setup()
-    acc = _Acc()
-    holder = {}
-
-    phases = [Phase.generate, Phase.shrink]
     st = settings(
         max_examples=n_examples,
         database=None,
@@ -233,9 +222,7 @@ def _run_shard(args):
         verbosity=hypothesis.Verbosity.quiet,
     )
 
-    shrink_cap = 8 if tier == 'quick' else 120
-
-    @hypothesis.seed(seed * 1000 + shard)
+    @hypothesis.seed(hseed)
     @settings(st)
     @given(prop.strategy(tier))
     def test(spec):
@@ -259,7 +246,6 @@ def _run_shard(args):
                 holder['size'] = size
             raise AssertionError(res.clause)
 
-    t0 = time.time()
     try:
         test()
     except HarnessError as e:
@@ -275,7 +261,6 @@ def _run_shard(args):
             except Exception:
                 pass
     except hypothesis.errors.Flaky as e:
-        # Non-deterministic failure: report what was seen, flagged
         f = holder.get('failing')
         if f:
             acc.failure = (f[0], f[1], f[2])
@@ -286,6 +271,49 @@ def _run_shard(args):
             acc.failure = holder['failing']
         else:
             return ('harness', traceback.format_exc(), None)
+    return None
+
+
+def _freeze_heap():
+    """Every case drops a few dozen cyclic components; without this the collector re-scans the whole inherited heap
+    (hypothesis, circuits, the strategy objects) at every generation-2 collection of a forked worker."""
+    import gc
+    gc.collect()
+    gc.freeze()
+
+
+def _run_shard(args):
+    modname, tier, seed, shard, n_examples, triggers = args
+    sys.setrecursionlimit(10000)
+    import importlib
+
+    import hypothesis
+    from hypothesis import HealthCheck, Phase, given, settings
+
+    mod = importlib.import_module(modname)
+    prop = mod.PROP
+    prop.setup()
+    _freeze_heap()
+    acc = _Acc()
+    holder = {}
+
+    phases = [Phase.generate, Phase.shrink]
+    shrink_cap = 8 if tier == 'quick' else 120
+    t0 = time.time()
+    # Rounds of at most ROUND examples, each a fresh Hypothesis run with its own derived seed: Hypothesis' record of
+    # explored choices (and with it memory and generation time) grows with the number of examples of one run.
+    ROUND = 1000
+    done = 0
+    rnd = 0
+    while done < n_examples:
+        chunk = min(ROUND, n_examples - done)
+        out = _one_round(prop, tier, seed * 100000 + 100 * rnd + shard, chunk, triggers, acc, holder, phases, shrink_cap)
+        if out is not None:
+            return out
+        if acc.failure is not None:
+            break
+        done += chunk
+        rnd += 1
     return ('ok', acc, time.time() - t0)
 
 
@@ -296,6 +324,7 @@ def _run_enum_chunk(args):
     mod = importlib.import_module(modname)
     prop = mod.PROP
     prop.setup()
+    _freeze_heap()
     acc = _Acc()
     nfail = 0
     for spec in specs:
